@@ -131,6 +131,13 @@ def steady_state_transport_solver(
         logger.info("Setting both equal.")
         nlx, nly = nxe, nye
 
+    # symmetric truncation needs an even number of removed modes per axis
+    if (nxe - nlx) % 2 > 0 or (nye - nly) % 2 > 0:
+        raise ValueError(
+            "number of (padded) grid cells and number of modes must have "
+            "the same parity in each direction."
+        )
+
     # Deltas for truncated Fourier transform
     dlx, dly = (nxe - nlx) // 2, (nye - nly) // 2
 
